@@ -39,6 +39,12 @@ pub struct Oracles {
     pub count_io: bool,
     /// keep a shadow 'was ever non-zero' bitmap of the file (C08 non-trivial rule)
     pub shadow_nonzero: bool,
+    /// C18: pin the times of every new storage to a value derived from the op index
+    pub pin_new_times: bool,
+    /// C18: chop plan for the backend (short transfers, spurious Interrupted)
+    pub chop: Option<Vec<u8>>,
+    /// C18: keep the bytes in a real file at this path
+    pub file_path: Option<std::path::PathBuf>,
 }
 
 pub struct Handle {
@@ -238,9 +244,16 @@ pub fn open_options(max_buf: Option<u32>, strict: bool) -> OpenOptions {
 
 impl Engine {
     pub fn new(version: u8, max_buf: Option<u32>, pool: Vec<String>, oracles: Oracles) -> Result<Engine, Fail> {
-        let mut io = Io::new();
-        let ctl = if oracles.count_io { Some(std::sync::Arc::new(std::sync::Mutex::new(crate::backend::Ctl::default()))) } else { None };
+        let mut io = match &oracles.file_path {
+            Some(p) => {
+                let f = std::fs::OpenOptions::new().read(true).write(true).create(true).truncate(true).open(p).map_err(|e| Fail::new("harness|file", e.to_string()))?;
+                Io::from_file(f, p.clone())
+            }
+            None => Io::new(),
+        };
+        let ctl = if oracles.count_io || oracles.chop.is_some() { Some(std::sync::Arc::new(std::sync::Mutex::new(crate::backend::Ctl::default()))) } else { None };
         if let Some(c) = &ctl {
+            c.lock().unwrap().chop = oracles.chop.clone();
             io = io.with_ctl(c.clone());
         }
         let peer = io.peer();
